@@ -547,3 +547,36 @@ def nested_inner_catch(which, mode: int, q2: int, c0: int, c1: int, c2: int, c3:
 
 
 SCN["nested_inner_catch"] = (["0 <= mode < 2 and 0 <= q2 < 2"], 900, 3000, ("quick", "thorough"))
+
+
+def exec_timeout(which, kind: int, typ: int, c0: int, c1: int, c2: int, c3: int, c4: int, c5: int):
+    """The machine's TimeoutSeconds (2 s) expires while the execution is blocked: in a Wait of 5 s (kind 0), in a Task
+    whose worker never replies (kind 1), in a Parallel whose branches are a Wait and such a Task (kind 2), in a Map
+    iteration's Wait (kind 3).  The execution fails with States.Timeout at +2 s, exactly once, and leaves nothing behind."""
+    kind = cint(kind, 0, 3); typ = cint(typ, 0, 1)
+    W = {"Type": "Wait", "Seconds": 5, "End": True}
+    T = task("never", End=True)
+    if kind == 0:
+        states = {"A": W}
+    elif kind == 1:
+        states = {"A": T}
+    elif kind == 2:
+        states = {"A": {"Type": "Parallel", "End": True, "Branches": [{"StartAt": "W", "States": {"W": W}}, {"StartAt": "T", "States": {"T": T}}]}}
+    else:
+        states = {"A": {"Type": "Map", "ItemsPath": "$.items", "End": True, "Iterator": {"StartAt": "W", "States": {"W": W}}}}
+    asl = {"StartAt": "A", "TimeoutSeconds": 2, "States": states}
+    sm_type = "EXPRESS" if typ == 1 else "STANDARD"
+
+    def chk(run, inst, mon):
+        ts = sim.terminals()
+        if len(ts) != 1:
+            return "terminals %d" % len(ts)
+        d = ts[0]
+        if (d["stopDate"] - d["startDate"]) != 2000:
+            return "C08 execution time-out after %d ms, expected 2000" % (d["stopDate"] - d["startDate"])
+        return ""
+    return _run(asl, {"x": 1, "items": [1, 2]}, [c0, c1, c2, c3, c4, c5], {"never": lambda req: None}, which, sm_type,
+                ("FAILED", "States.Timeout"), extra_check=chk, max_steps=120)
+
+
+SCN["exec_timeout"] = (["0 <= kind < 4 and 0 <= typ < 2"], 300, 900, ("quick", "thorough"))
